@@ -121,7 +121,8 @@ class TermAlg:
         self.fstack: List[FuncInfo] = []
         self.signs: Dict[Any, int] = {}  # sign assumptions on symbols: ("sym", name) -> +1 / -1
         self.ext_stubs: Dict[str, Any] = {}  # dotted name of a third-party callable -> fn(ta, pos, kw)
-        self._class_vals: Dict[Any, Any] = {}  # (class, name) -> the one object a class-level binding denotes
+        self._class_vals: Dict[Any, Any] = {}
+        self._yields: List[List[Any]] = []  # (class, name) -> the one object a class-level binding denotes
 
     # ------------------------------------------------------------ builders
     def term(self, keys: List[Key], prefix: str, const_name: Optional[str] = None) -> Rec:
@@ -159,15 +160,35 @@ class TermAlg:
                 if len(self.fstack) > 0:
                     raise Raised("TypeError")  # the interpreted code calls %s without its argument %s
                 raise AnalysisError("missing argument %s for %s" % (p, fi.key))
+        is_gen = not isinstance(fi.node, ast.Lambda) and any(isinstance(n_, (ast.Yield, ast.YieldFrom)) for n_ in ast.walk(fi.node))
         self.depth += 1
         self.fstack.append(fi)
+        if is_gen:
+            # a generator function: run to the end, what it yields collected in order (its callers only iterate it)
+            self._yields.append([])
         try:
             self.block(fi.body, env)
         except _Ret as r:
-            return r.v
+            if not is_gen:
+                return r.v
         finally:
             self.depth -= 1
             self.fstack.pop()
+            got_ = self._yields.pop() if is_gen else None
+        if is_gen:
+            return ListV(got_)
+        return NONE
+
+    def x_Yield(self, e, env):
+        if not self._yields:
+            raise AnalysisError("yield outside a generator function")
+        self._yields[-1].append(self.eval(e.value, env) if e.value is not None else NONE)
+        return NONE
+
+    def x_YieldFrom(self, e, env):
+        if not self._yields:
+            raise AnalysisError("yield outside a generator function")
+        self._yields[-1].extend(self.iterate(self.eval(e.value, env), e))
         return NONE
 
     def method(self, obj: Rec, name: str, pos: List[Any], kw: Optional[Dict[str, Any]] = None) -> Any:
@@ -401,6 +422,12 @@ class TermAlg:
             if isinstance(b, DictV) and isinstance(k, Key):
                 b.d[k] = v
                 return
+            if isinstance(b, ListV) and not isinstance(b, (TupV, SetV)) and isinstance(k, Rat) and k.as_const() is not None and k.as_const().denominator == 1:
+                i_ = int(k.as_const())
+                if not -len(b.items) <= i_ < len(b.items):
+                    raise Raised("IndexError")
+                b.items[i_] = v  # xs[i] = v
+                return
         raise AnalysisError("assignment to %s outside the kernel fragment" % norm(t))
 
     def iterate(self, v, node) -> List[Any]:
@@ -611,6 +638,52 @@ class TermAlg:
                 return ("str", "?")
         return ("str", out)
 
+    def _str_format(self, template: str, pos, kw) -> Optional[str]:
+        """'...{0:.4g}...'.format(values) for values whose text is known; None when a piece cannot be followed"""
+        import string
+
+        out = ""
+        auto = 0
+        try:
+            pieces = list(string.Formatter().parse(template))
+        except ValueError:
+            return None
+        for lit, field, spec, conv in pieces:
+            out += lit
+            if field is None:
+                continue
+            if conv not in (None, "s") or "{" in (spec or "") or "." in field or "[" in field:
+                return None
+            if field == "":
+                key_ = auto
+                auto += 1
+            elif field.isdigit():
+                key_ = int(field)
+            else:
+                key_ = field
+            if isinstance(key_, int):
+                if key_ >= len(pos):
+                    raise Raised("IndexError")
+                v = pos[key_]
+            else:
+                if key_ not in kw:
+                    raise Raised("KeyError")
+                v = kw[key_]
+            if spec:
+                if isinstance(v, Rat) and v.as_const() is not None:
+                    try:
+                        out += format(float(v.as_const()), spec)
+                    except ValueError:
+                        return None
+                else:
+                    return None
+            else:
+                t_ = self.text_of(v)
+                if "?" in t_:
+                    return None
+                out += t_
+        return out
+
     def text_of(self, v) -> str:
         if isinstance(v, Rat):
             if v.is_zero():
@@ -767,6 +840,16 @@ class TermAlg:
                 return l.scale(num(1) / r)
         if isinstance(l, ListV) and isinstance(r, ListV) and isinstance(op, ast.Add):
             return ListV(l.items + r.items)
+        if isinstance(op, ast.Mult) and isinstance(node, ast.BinOp) and (
+            (isinstance(node.left, (ast.List, ast.Tuple)) and isinstance(l, ListV) and isinstance(r, Rat)) or (isinstance(node.right, (ast.List, ast.Tuple)) and isinstance(r, ListV) and isinstance(l, Rat))
+        ):
+            # a list DISPLAY times a number is Python's repetition ([0.0] * n), not an array scaled by a number
+            seq_, k_ = (l, r) if isinstance(l, ListV) else (r, l)
+            c_ = k_.as_const()
+            if c_ is None or c_.denominator != 1:
+                raise AnalysisError("list repetition %s by a number that is not a known integer" % norm(node))
+            rep_ = list(seq_.items) * max(int(c_), 0)
+            return TupV(rep_) if isinstance(seq_, TupV) else ListV(rep_)
         if isinstance(l, ListV) and isinstance(r, Rat) and isinstance(op, (ast.Mult, ast.Div)) and all(isinstance(x, Rat) for x in l.items):
             return ListV([self.arith(op, x, r, node) for x in l.items])  # array * scalar
         if isinstance(r, ListV) and isinstance(l, Rat) and isinstance(op, ast.Mult) and all(isinstance(x, Rat) for x in r.items):
@@ -859,7 +942,39 @@ class TermAlg:
             return a == b
         if isinstance(a, tuple) and isinstance(b, tuple):
             return a == b
-        return a is b
+        if a is b:
+            return True
+        return self.py_eq(a, b)
+
+    def py_eq(self, a, b, depth: int = 0) -> bool:
+        """Python's `a == b`: identity first, then the class's own __eq__ for records of the package, element by
+        element for lists / tuples / dictionaries, the value for numbers and text."""
+        if a is b:
+            return True
+        if depth > 6:
+            return False
+        if isinstance(a, Rat) and isinstance(b, Rat):
+            return (a - b).is_zero()
+        if isinstance(a, Key) and isinstance(b, Key):
+            return a == b
+        if isinstance(a, NoneT) and isinstance(b, NoneT):
+            return True
+        if isinstance(a, bool) and isinstance(b, bool):
+            return a == b
+        if isinstance(a, Rec) and isinstance(b, Rec):
+            fi = self.prog.resolve_method(a.cls, "__eq__")
+            if fi is None or len(self.fstack) > 40:
+                return False
+            return bool(self.truth(self.call(fi, [b], {}, self_val=a)))
+        if isinstance(a, TupV) != isinstance(b, TupV):
+            return False
+        if isinstance(a, (ListV, TupV)) and isinstance(b, (ListV, TupV)) and not isinstance(a, SetV) and not isinstance(b, SetV):
+            return len(a.items) == len(b.items) and all(self.py_eq(x, y, depth + 1) for x, y in zip(a.items, b.items))
+        if isinstance(a, DictV) and isinstance(b, DictV):
+            return set(a.d) == set(b.d) and all(self.py_eq(a.d[k], b.d[k], depth + 1) for k in a.d)
+        if isinstance(a, tuple) and isinstance(b, tuple):
+            return a == b
+        return False
 
     def linsolve(self, m, v) -> "ListV":
         """numpy.linalg.solve on a square matrix of generic symbols (Gauss-Jordan; a singular matrix raises
@@ -1066,6 +1181,10 @@ class TermAlg:
             if t == "typeof" and isinstance(f[1], Rec):
                 return self.construct(f[1].cls, pos, kw)
             if t == "strmeth":
+                if f[2] == "format" and "?" not in f[1]:
+                    done_ = self._str_format(f[1], pos, kw)
+                    if done_ is not None:
+                        return ("str", done_)
                 return ("str", "?")  # some text: only its being text matters to the rules
             if t == "strjoin" and len(pos) == 1:
                 parts = self.iterate(pos[0], e)
@@ -1101,6 +1220,17 @@ class TermAlg:
                     if cd is not None and cb is not None:
                         return abs(cd) <= Fraction(1, 10**8) + Fraction(1, 10**5) * abs(cb)
                     return False  # generic symbols: not within a tolerance of each other
+                if f[1] in ("numpy.abs", "numpy.absolute", "numpy.fabs", "math.fabs") and len(pos) == 1 and isinstance(pos[0], Rat):
+                    c_ = pos[0].as_const()
+                    if c_ is None:
+                        sg_ = sign_under(pos[0], self.signs) if self.signs else None
+                        if sg_ is None:
+                            raise Undecidable("abs of a symbol")
+                        return pos[0] if sg_ >= 0 else -pos[0]
+                    return num(abs(c_))
+                if f[1] in ("numpy.equal", "numpy.not_equal", "operator.eq", "operator.ne") and len(pos) == 2 and not isinstance(pos[0], ListV) and not isinstance(pos[1], ListV):
+                    same_ = self.py_eq(pos[0], pos[1])
+                    return same_ if f[1] in ("numpy.equal", "operator.eq") else not same_
                 if f[1] in ("numpy.linalg.solve", "scipy.linalg.solve") and len(pos) == 2:
                     return self.linsolve(pos[0], pos[1])
                 if f[1] in ("numpy.linalg.lstsq", "scipy.linalg.lstsq") and len(pos) >= 2:
@@ -1204,6 +1334,28 @@ class TermAlg:
                     for kk_, vv_ in kw.items():
                         d_.d[("str", kk_)] = vv_
                     return d_
+                if n in ("min", "max") and pos:
+                    # over numbers that are known (or whose order the scenario's signs fix); with key=: the first item
+                    # whose key is extreme, as Python does
+                    items_ = list(self.iterate(pos[0], e)) if len(pos) == 1 else list(pos)
+                    if not items_:
+                        if "default" in kw:
+                            return kw["default"]
+                        raise Raised("ValueError")
+                    keyf_ = kw.get("key")
+                    keys_ = [self.apply(keyf_, [x_], {}, e) if keyf_ is not None and not isinstance(keyf_, NoneT) else x_ for x_ in items_]
+                    best_ = 0
+                    for i_ in range(1, len(items_)):
+                        if not (isinstance(keys_[i_], Rat) and isinstance(keys_[best_], Rat)):
+                            raise AnalysisError("%s over values that are not numbers" % n)
+                        d_ = keys_[i_] - keys_[best_]
+                        c_ = d_.as_const()
+                        sg_ = ((c_ > 0) - (c_ < 0)) if c_ is not None else (sign_under(d_, self.signs) if self.signs else None)
+                        if sg_ is None:
+                            raise Undecidable("order of %s and %s is not determined (%s)" % (keys_[i_].show(), keys_[best_].show(), n))
+                        if (sg_ > 0 and n == "max") or (sg_ < 0 and n == "min"):
+                            best_ = i_
+                    return items_[best_]
                 if n == "sorted":
                     items = self.iterate(pos[0], e)
 
